@@ -120,7 +120,9 @@ def clause2(P, res):
 
 def clause3(P, res):
     rid = "C18-3"
-    res.rule(rid, "keys compare and hash on both components: PartialEq::eq and Hash::hash of the injection key read both type_id and name")
+    res.rule(rid, "keys are identified by both components: PartialEq::eq of the injection key compares type_id and name, and Hash::hash reads "
+                  "no field that eq ignores (hash may legitimately read fewer fields, never other ones)")
+    got = {}
     for tr, nm in (("core::cmp::PartialEq", "eq"), ("core::hash::Hash", "hash")):
         bs = [b for b in ioc_bodies(P) if b.impl_trait == tr and b.name == nm and (b.self_adt or "").endswith("InjectionKey")]
         if not bs:
@@ -130,13 +132,23 @@ def clause3(P, res):
         seen = set()
         for e in b.events:
             for p in operand_paths(b, e):
-                for f in ("type_id", "name"):
+                for f in [x["name"] for x in P.adt_fields("fibre_ioc::core::InjectionKey")]:
                     if re.search(r"\.%s\b" % f, p):
                         seen.add(f)
-        if seen == {"type_id", "name"}:
-            res.holds(rid, b.id, "reads type_id and name", where=f"{b.file}:{b.line}", obligations=2)
+        got[nm] = (b, seen)
+    if "eq" in got:
+        b, seen = got["eq"]
+        if {"type_id", "name"} <= seen:
+            res.holds(rid, b.id, "compares type_id and name", where=f"{b.file}:{b.line}", obligations=2)
         else:
-            res.violated(rid, b.id, f"{nm} ignores {sorted({'type_id', 'name'} - seen)}: differently typed or named registrations alias", where=f"{b.file}:{b.line}")
+            res.violated(rid, b.id, f"eq ignores {sorted({'type_id', 'name'} - seen)}: differently typed or named registrations alias", where=f"{b.file}:{b.line}")
+    if "hash" in got and "eq" in got:
+        b, seen = got["hash"]
+        extra = seen - got["eq"][1]
+        if extra:
+            res.violated(rid, b.id, f"hash reads {sorted(extra)} which eq ignores: equal keys can hash differently and a registered service is not found", where=f"{b.file}:{b.line}")
+        else:
+            res.holds(rid, b.id, f"hash reads {sorted(seen)} (a subset of what eq compares)", where=f"{b.file}:{b.line}")
 
 
 def clause4(P, res):
